@@ -143,6 +143,11 @@ type (
 		Finally    []Stmt
 		HasFinally bool
 	}
+	// MapItemAssign is `v, ok = m[k]` (the grammar's two-name assignment from an index expression)
+	MapItemAssign struct {
+		V, Ok string
+		X     *Index
+	}
 	Defer  struct{ C *Call }
 	Go     struct{ C *Call }
 	Module struct {
@@ -165,6 +170,7 @@ func (*Return) isStmt()   {}
 func (*Throw) isStmt()    {}
 func (*Try) isStmt()      {}
 func (*Defer) isStmt()    {}
+func (*MapItemAssign) isStmt() {}
 func (*Go) isStmt()       {}
 func (*Module) isStmt()   {}
 
@@ -338,6 +344,9 @@ func (p *printer) stmt(s Stmt) {
 			p.b.WriteString(" finally ")
 			p.block(s.Finally)
 		}
+	case *MapItemAssign:
+		p.b.WriteString(s.V + ", " + s.Ok + " = ")
+		p.expr(s.X)
 	case *Defer:
 		p.b.WriteString("defer ")
 		p.expr(s.C)
